@@ -6,6 +6,9 @@ All statements are for every number of selected cases, every outcome map and eve
 -/
 import ConfModel.Lemmas.Report
 import ConfModel.Lemmas.ReportScript
+import ConfModel.Lemmas.RunLoop
+import ConfModel.Props.C10
+import ConfModel.Props.C11
 namespace ConfModel.Props.C04
 open ConfModel.Report ConfModel.RunVerdict
 
@@ -301,6 +304,504 @@ an outcome: one passing case of three selected ones was reported as success. -/
 theorem unrepaired_witness :
     (reportUnrepaired ⟨fun _ => false, fun _ => false⟩ 3 [("a", ⟨.none, false, false, false⟩)] []).ok = true ∧
     (report ⟨fun _ => false, fun _ => false⟩ 3 [("a", ⟨.none, false, false, false⟩)] []).ok = false := by
+  decide
+
+
+/-! ## Composition: the batch loop of `run()` with the producers of outcomes (C11, C10)
+
+`ConfModel.Model.RunLoop`: process fates are inputs.  Hypotheses of the theorems (all decidable):
+every batch is non-empty (`run()` skips empty ones), `names` are the test names of the cases of
+the batch, test names are distinct over the whole run (C07), no name is marked both known-failing
+and known-flaky (`run()` rejects that). -/
+
+open ConfModel.RunLoop
+open ConfModel.ServerRunner (Script runBatch)
+open ConfModel.ClientRunner (State Event Name run init) 
+open ConfModel.ClientRunner.Spec (Terminal retOf cbsOf reqOK)
+
+/-- `report` looks at the merged outcome map only up to the order of its entries (Go map
+iteration): if it is the outcome map of an assignment, the verdict, the totals and the names
+printed are those of the declarative rule. -/
+theorem report_of_perm (mk : Marks) (cases : List Case) (extra : Nat) (os : Outcomes) (sb : Sideband)
+    (hperm : (merged mk os sb).Perm (finalMap cases)) :
+    let r := report mk (cases.length + extra) os sb
+    r.ok = specOk cases extra ∧
+    (⟨r.succeeded, r.failed, r.expectedFailures, r.couldNotRun⟩ : Totals) = specTotals cases extra ∧
+    r.failedNames.Perm (specFailedNames cases) ∧ r.infoNames.Perm (specInfoNames cases) := by
+  intro r
+  have hA := assignment_report mk cases extra
+  simp only [report, reportWith, processSideband_nil] at hA
+  obtain ⟨h1, h2, h3, h4⟩ := hA
+  have hc : ∀ k, count k (merged mk os sb) = count k (finalMap cases) := fun k => hperm.countP_eq _
+  have hl : (merged mk os sb).length = (finalMap cases).length := hperm.length_eq
+  have hn : ∀ p, (namesOf p (merged mk os sb)).Perm (namesOf p (finalMap cases)) :=
+    fun p => (hperm.filter _).map _
+  have hr : r = reportWith (fun failed couldNotRun => failed == 0 && couldNotRun == 0) mk
+      (cases.length + extra) os sb := rfl
+  rw [hr]
+  simp only [reportWith, hc, hl]
+  refine ⟨h1, h2, ?_, ?_⟩
+  · rw [← h3]; exact hn _
+  · rw [← h4]; exact hn _
+
+/-- **The report of a run is the rule of the property applied to what happened.**  Whatever the
+fates of the client and server processes: the verdict of `report`, the printed totals and the
+`FAILED` / `INFO` names after the batch loop are those the declarative rule gives for the
+assignment that says, for every selected case, what happened to it (`assignment`: the class of the
+one outcome its batch recorded for it — C11 —, peer feedback from the server's stderr, or
+"nothing known" when its batch was never spawned). -/
+theorem run_report_spec (mk : Marks) (w : List Client)
+    (hnamed : ∀ s ∈ allScripts w, s.names.length = s.cases.length)
+    (hd : (allNames w).Nodup)
+    (hex : ∀ n ∈ allNames w, (mk.failing n && mk.flaky n) = false)
+    (r : Report) (hr : runReport mk w = some r) :
+    r.ok = specOk (assignment mk w) 0 ∧
+    (⟨r.succeeded, r.failed, r.expectedFailures, r.couldNotRun⟩ : Totals) = specTotals (assignment mk w) 0 ∧
+    r.failedNames.Perm (specFailedNames (assignment mk w)) ∧
+    r.infoNames.Perm (specInfoNames (assignment mk w)) := by
+  have hp := merged_perm mk w hnamed hd hex
+  have hrep := report_of_perm mk (assignment mk w) 0 _ _ hp
+  rw [Nat.add_zero, assignment_length] at hrep
+  unfold runReport at hr
+  split at hr
+  · cases hr
+  · injection hr with hr; subst hr; exact hrep
+
+/-- **run_success_iff (interface layer).**  For every list of clients, every list of batches per
+client, every fate of every server process, every observation of the client runner per request
+(refused / accepted and answered / accepted and failed), every outcome of every liveness check and
+of every final wait: `Run` returns success iff every selected case received a real answer meeting
+its expectation (`specOk` of the assignment) and every client started and ended without error. -/
+theorem run_success_iff_interface (mk : Marks) (w : List Client)
+    (hne : ∀ s ∈ allScripts w, 0 < s.cases.length)
+    (hnamed : ∀ s ∈ allScripts w, s.names.length = s.cases.length)
+    (hd : (allNames w).Nodup)
+    (hex : ∀ n ∈ allNames w, (mk.failing n && mk.flaky n) = false) :
+    Run mk w = true ↔
+      specOk (assignment mk w) 0 = true ∧ ∀ c ∈ w, c.startErr = false ∧ c.waitErr = false := by
+  obtain ⟨t, ht, hok, hclean⟩ := sched_prefix w
+  have hp := merged_perm mk w hnamed hd hex
+  have hrep := (report_of_perm mk (assignment mk w) 0 _ _ hp).1
+  rw [Nat.add_zero, assignment_length] at hrep
+  have hrun : ∀ e, (sched w).2 = e → e ≠ .noResults →
+      Run mk w = ((report mk (total w) (resultsOf mk (sched w).1).os (resultsOf mk (sched w).1).sb).ok && !(e == .err)) := by
+    intro e he hne'
+    unfold Run RunWith
+    rw [he]
+    cases e <;> first | rfl | exact absurd rfl hne'
+  constructor
+  · intro h
+    cases he : (sched w).2 with
+    | noResults => simp [Run, RunWith, he] at h
+    | err => rw [hrun _ he (by decide)] at h; simp at h
+    | ok =>
+      rw [hrun _ he (by decide)] at h
+      simp only [Bool.and_eq_true] at h
+      exact ⟨by rw [← hrep]; exact h.1, (hok he).2⟩
+  · rintro ⟨hs, hc⟩
+    rcases hclean hc with he | ⟨he, hne'⟩
+    · rw [hrun _ he (by decide), hrep, hs]; rfl
+    · exfalso
+      cases t with
+      | nil => exact hne' rfl
+      | cons s t' =>
+        have hs_mem : s ∈ allScripts w := by rw [← ht]; simp
+        obtain ⟨c, hc1, hc2⟩ := missing_not_meets mk s (hne s hs_mem)
+        have hin : c ∈ assignment mk w := by
+          rw [assignment_eq mk w _ ht]
+          exact List.mem_append_right _ (List.mem_flatMap.2 ⟨s, List.mem_cons_self, hc1⟩)
+        simp only [specOk, Bool.and_eq_true, List.all_eq_true] at hs
+        rw [hs.2 c hin] at hc2
+        cases hc2
+
+
+/-- **The interleaving of concurrently running batches is irrelevant** (`--max-servers` > 1).
+Whatever order the `setOutcome` calls of the spawned batches reach `testResults` in (any
+permutation `ws` of them), the map `report` looks at is the outcome map of the same assignment —
+hence the same verdict, totals and names (`report_of_perm`).  The model records batch after batch;
+this is why that loses nothing. -/
+theorem interleaving_irrelevant (mk : Marks) (w : List Client)
+    (hnamed : ∀ s ∈ allScripts w, s.names.length = s.cases.length)
+    (hd : (allNames w).Nodup)
+    (hex : ∀ n ∈ allNames w, (mk.failing n && mk.flaky n) = false)
+    (ws : List (String × ServerRunner.Class)) (hp : ws.Perm ((sched w).1.flatMap writesOf)) :
+    (merged mk (applyWrites mk [] ws) (resultsOf mk (sched w).1).sb).Perm (finalMap (assignment mk w)) := by
+  refine List.Perm.trans ?_ (merged_perm mk w hnamed hd hex)
+  obtain ⟨t, ht, _, _⟩ := sched_prefix w
+  have hdl : ((sched w).1.flatMap batchNames).Nodup := by
+    have : ((sched w).1.flatMap batchNames ++ t.flatMap batchNames).Nodup := by
+      rw [← List.flatMap_append, ht]; exact hd
+    exact (List.nodup_append.1 this).1
+  have hwn : (((sched w).1.flatMap writesOf).map (·.1)).Nodup :=
+    ((flat_writes_keys_perm _).nodup_iff).2 hdl
+  have hsb : (mkeys (resultsOf mk (sched w).1).sb).Nodup := by
+    rw [resultsOf_sb]; exact applyNotes_nodup _ _ (by simp [mkeys])
+  have n1 : (mkeys (merged mk (applyWrites mk [] ws) (resultsOf mk (sched w).1).sb)).Nodup := by
+    rw [processSideband_eq]
+    exact mergeAll_nodup _ _ _ (applyWrites_nodup _ _ _ (by simp [mkeys]))
+  have n2 := mergedOf_nodup mk (sched w).1
+  rw [List.perm_ext_iff_of_nodup (nodup_of_mkeys _ n1) (nodup_of_mkeys _ n2)]
+  rintro ⟨n, o⟩
+  rw [mem_iff_get? _ n1, mem_iff_get? _ n2]
+  unfold mergedOf
+  rw [processSideband_eq, processSideband_eq, mergeAll_get _ _ hsb, mergeAll_get _ _ hsb, resultsOf_os,
+    writes_perm_get mk _ ws [] hp hwn n]
+
+/-- **Link to C11.**  The one outcome a spawned batch records for case i is the verdict of the
+client's own answer when the case got one (`realAnswer`: no set-up fault of the server, handed to
+the client before the server died or a send was refused, answered by the client), and a set-up
+error class — set-up error proper, could-not-run, no result — in every other situation.
+(C11 `outcomes_as_demanded`.) -/
+theorem classAt_real (s : Script) (i : Nat) (cls : ServerRunner.Class) (h : classAt s i = some cls) :
+    match realAnswer s i with
+    | some k => cls = ServerRunner.verdict k ∧ k ≠ .noresult
+    | none => ServerRunner.Spec.isSetupErr cls = true := by
+  have hd := ConfModel.Props.C11.outcomes_as_demanded s i cls (classAt_mem s i cls h)
+  unfold ServerRunner.Spec.expectedOK at hd
+  unfold realAnswer
+  split at hd
+  · rename_i hf
+    simp only [hf, if_true]
+    have : cls = .setup := by simpa using hd
+    subst this; rfl
+  · rename_i hf
+    simp only [hf]
+    split at hd
+    · rename_i hlt
+      simp only [hlt, if_true]
+      split at hd
+      · rename_i k a hc
+        have hcls : cls = ServerRunner.verdict k := by simpa using hd
+        rw [hc]
+        cases k <;> simp_all [ServerRunner.verdict, ServerRunner.Spec.isSetupErr]
+      · cases hd
+    · rename_i hlt
+      simp only [hlt, if_false]
+      exact hd
+
+/-- A case of a spawned batch "ran and met its expectation" (the spec's `meets`) exactly when it
+received a real answer meeting its expectation (`answeredOK`, a predicate on the inputs). -/
+theorem ran_meets (mk : Marks) (s : Script) (i : Nat) (hi : i < s.cases.length) :
+    (ranCase mk s i).meets = answeredOK mk s i := by
+  obtain ⟨cls, hcls, _⟩ := classAt_some s i hi
+  have hr := classAt_real s i cls hcls
+  simp only [ranCase, hcls]
+  unfold answeredOK
+  generalize markOf mk (caseName s i) = m
+  generalize (notesOf s).any (fun e => e.1 == caseName s i) = fb
+  cases hra : realAnswer s i with
+  | none =>
+    rw [hra] at hr
+    cases cls <;> simp_all [kindOfClass, Case.meets, Case.ran, ServerRunner.Spec.isSetupErr]
+  | some k =>
+    rw [hra] at hr
+    obtain ⟨rfl, hk⟩ := hr
+    cases k <;> cases m <;> cases fb <;>
+      simp_all [kindOfClass, Case.meets, Case.ran, Case.passedRun, Case.failedRun, ServerRunner.verdict] <;>
+      decide
+
+/-- The rule of the property on the assignment of a run, in terms of the inputs: every batch was
+spawned and every case of every batch received a real answer meeting its expectation. -/
+theorem spec_iff_answered (mk : Marks) (w : List Client)
+    (hne : ∀ s ∈ allScripts w, 0 < s.cases.length) :
+    specOk (assignment mk w) 0 = true ↔
+      (sched w).1 = allScripts w ∧
+        ∀ s ∈ allScripts w, ∀ i, i < s.cases.length → answeredOK mk s i = true := by
+  obtain ⟨t, ht, _, _⟩ := sched_prefix w
+  rw [assignment_eq mk w t ht]
+  simp only [specOk, beq_self_eq_true, Bool.true_and, List.all_eq_true]
+  constructor
+  · intro h
+    have htn : t = [] := by
+      cases t with
+      | nil => rfl
+      | cons s t' =>
+        exfalso
+        have hs_mem : s ∈ allScripts w := by rw [← ht]; simp
+        obtain ⟨c, hc1, hc2⟩ := missing_not_meets mk s (hne s hs_mem)
+        rw [h c (List.mem_append_right _ (List.mem_flatMap.2 ⟨s, List.mem_cons_self, hc1⟩))] at hc2
+        cases hc2
+    subst htn
+    rw [List.append_nil] at ht
+    refine ⟨ht, fun s hs i hi => ?_⟩
+    rw [← ran_meets mk s i hi]
+    apply h
+    apply List.mem_append_left
+    rw [ht]
+    exact List.mem_flatMap.2 ⟨s, hs, List.mem_map.2 ⟨i, List.mem_range.2 hi, rfl⟩⟩
+  · rintro ⟨hall, h⟩ c hc
+    have htn : t = [] := by
+      have := congrArg List.length ht
+      rw [hall, List.length_append] at this
+      exact List.eq_nil_of_length_eq_zero (by omega)
+    subst htn
+    simp only [List.flatMap_nil, List.append_nil] at hc
+    obtain ⟨s, hs, hcs⟩ := List.mem_flatMap.1 hc
+    obtain ⟨i, hi, rfl⟩ := List.mem_map.1 hcs
+    rw [ran_meets mk s i (List.mem_range.1 hi)]
+    exact h s (hall ▸ hs) i (List.mem_range.1 hi)
+
+/-- **run_success_iff (interface layer, in terms of the inputs only).**  `Run` returns success iff
+every client started, no liveness check found the client stopped, every final wait returned
+without error, and every case of every batch received a real answer meeting its expectation. -/
+theorem run_success_iff_answers (mk : Marks) (w : List Client)
+    (hne : ∀ s ∈ allScripts w, 0 < s.cases.length)
+    (hnamed : ∀ s ∈ allScripts w, s.names.length = s.cases.length)
+    (hd : (allNames w).Nodup)
+    (hex : ∀ n ∈ allNames w, (mk.failing n && mk.flaky n) = false) :
+    Run mk w = true ↔
+      (∀ c ∈ w, c.startErr = false ∧ c.waitErr = false ∧ ∀ b ∈ c.batches, b.noticed = false) ∧
+      ∀ s ∈ allScripts w, ∀ i, i < s.cases.length → answeredOK mk s i = true := by
+  rw [run_success_iff_interface mk w hne hnamed hd hex, spec_iff_answered mk w hne]
+  obtain ⟨t, ht, hok, hclean⟩ := sched_prefix w
+  constructor
+  · rintro ⟨⟨hall, ha⟩, hc⟩
+    refine ⟨?_, ha⟩
+    have hk : (sched w).2 = .ok := by
+      rcases hclean hc with h | ⟨_, hne'⟩
+      · exact h
+      · exfalso
+        have := congrArg List.length ht
+        rw [hall, List.length_append] at this
+        exact hne' (List.eq_nil_of_length_eq_zero (by omega))
+    obtain ⟨_, hn⟩ := (sched_ok_iff w).1 hk
+    exact fun c hcw => ⟨(hc c hcw).1, (hc c hcw).2, hn c hcw⟩
+  · rintro ⟨h, ha⟩
+    have hc : Clean w := fun c hcw => ⟨(h c hcw).1, (h c hcw).2.1⟩
+    have hk : (sched w).2 = .ok := (sched_ok_iff w).2 ⟨hc, fun c hcw => (h c hcw).2.2⟩
+    have htn := (hok hk).1
+    subst htn
+    rw [List.append_nil] at ht
+    exact ⟨⟨ht, ha⟩, hc⟩
+
+
+/-! ### fate layer: the client process as an input -/
+
+/-- **run_success_iff (headline).**  For every list of clients whose processes are described by
+their fate — answer the first k requests (any k, also 0 and also "all of them"), then exit with
+any status / fall silent / write garbage —, every resolution of the races the fate leaves open
+(a send after the stop is refused or still accepted and failed later; the liveness check before a
+batch has or has not noticed the stop; a refused send has or has not latched the error), every
+split of the selected cases into batches and every fate of every server process: `Run` returns
+success iff every selected case received a real answer meeting its expectation (`specOk` of what
+happened) and every client process started and ended cleanly (exit status 0 after its last answer,
+nothing but responses on its stdout).
+
+In particular (`cleanEnd` holds) for a client that exits with status 0 before all requests were
+sent, at any point between or inside batches: the run succeeds iff every selected case was
+answered and met its expectation — it does not (`early_stop_fails`). -/
+theorem run_success_iff (mk : Marks) (w : List FClient)
+    (hne : ∀ s ∈ allScripts (compile w), 0 < s.cases.length)
+    (hnamed : ∀ s ∈ allScripts (compile w), s.names.length = s.cases.length)
+    (hd : (allNames (compile w)).Nodup)
+    (hex : ∀ n ∈ allNames (compile w), (mk.failing n && mk.flaky n) = false) :
+    Run mk (compile w) = true ↔
+      specOk (assignment mk (compile w)) 0 = true ∧
+        ∀ c ∈ w, c.startErr = false ∧ cleanEnd c.fate = true := by
+  rw [run_success_iff_interface mk _ hne hnamed hd hex]
+  constructor
+  · rintro ⟨hs, hc⟩
+    refine ⟨hs, fun c hcw => ?_⟩
+    have := hc (compileClient c) (List.mem_map.2 ⟨c, hcw, rfl⟩)
+    refine ⟨this.1, ?_⟩
+    have h2 := this.2
+    simp only [compileClient, Bool.or_eq_false_iff, Bool.not_eq_false'] at h2
+    exact h2.1
+  · rintro ⟨hs, hc⟩
+    refine ⟨hs, fun c' hc' => ?_⟩
+    obtain ⟨c, hcw, rfl⟩ := List.mem_map.1 hc'
+    refine ⟨(hc c hcw).1, ?_⟩
+    have hans := ((spec_iff_answered mk _ hne).1 hs).2
+    simp only [compileClient, Bool.or_eq_false_iff, Bool.not_eq_false', Bool.and_eq_false_iff]
+    refine ⟨(hc c hcw).2, Or.inr ?_⟩
+    rw [List.any_eq_false]
+    intro s hsm hr
+    have hall : s ∈ allScripts (compile w) :=
+      List.mem_flatMap.2 ⟨compileClient c, List.mem_map.2 ⟨c, hcw, rfl⟩, batchSched_sub _ s hsm⟩
+    obtain ⟨i, hi, hno⟩ := refused_not_answered mk s hr
+    rw [hans s hall i hi] at hno
+    cases hno
+
+/-- **A client that stops early never lets the run succeed.**  If a client answers only k requests
+and more than k cases are assigned to it — whatever it does then (exit with status 0 included),
+wherever the k-th answer falls (between or inside batches), however the races resolve, whatever
+the servers do — `Run` returns failure. -/
+theorem early_stop_fails (mk : Marks) (w : List FClient)
+    (hne : ∀ s ∈ allScripts (compile w), 0 < s.cases.length)
+    (hnamed : ∀ s ∈ allScripts (compile w), s.names.length = s.cases.length)
+    (hd : (allNames (compile w)).Nodup)
+    (hex : ∀ n ∈ allNames (compile w), (mk.failing n && mk.flaky n) = false)
+    (c : FClient) (hc : c ∈ w) (k : Nat) (hk : c.fate.answers = some k)
+    (hlt : k < (c.batches.map (fun b => b.cases.length)).sum) :
+    Run mk (compile w) = false := by
+  cases hr : Run mk (compile w) with
+  | false => rfl
+  | true =>
+    exfalso
+    have ha := ((run_success_iff_answers mk _ hne hnamed hd hex).1 hr).2
+    have := answered_all_le mk c.batches k (by
+      intro b hb i hi
+      apply ha b.s _ i hi
+      refine List.mem_flatMap.2 ⟨compileClient c, List.mem_map.2 ⟨c, hc, rfl⟩, ?_⟩
+      simp only [compileClient, hk]
+      exact List.mem_map.2 ⟨b, hb, rfl⟩)
+    omega
+
+/-! ### non-vacuity: concrete runs -/
+
+def okServer : ServerFate :=
+  { isRef := true, useTLS := false, startErr := false, writeErr := false, closeErr := false,
+    resp := .ok, dies := none, stderr := [] }
+
+def tc (n : String) (a : Ans) (late : Bool) : TestCase := { name := n.toList, ans := a, async := true, late := late }
+
+/-- two batches (2 + 1 cases) for one client -/
+def demoBatches (noticed late : Bool) : List FBatch :=
+  [ { cases := [tc "a" .pass late, tc "b" .mismatch late], srv := okServer, noticed := noticed },
+    { cases := [tc "c" .pass late], srv := okServer, noticed := noticed } ]
+
+def demoClient (k : Option Nat) (stop : Stop) (status : Nat) (noticed late : Bool) : FClient :=
+  { startErr := false, fate := { answers := k, stop := stop, status := status, latch := late },
+    batches := demoBatches noticed late }
+
+/-- "b" is known to fail -/
+def demoMarks : Marks := { failing := fun n => n == "b", flaky := fun _ => false }
+
+def demoWorld := compile [demoClient (some 2) .exit 0 true true]
+
+example : (∀ s ∈ allScripts demoWorld, 0 < s.cases.length) ∧
+    (∀ s ∈ allScripts demoWorld, s.names.length = s.cases.length) ∧
+    (allNames demoWorld).Nodup ∧
+    (∀ n ∈ allNames demoWorld, (demoMarks.failing n && demoMarks.flaky n) = false) := by decide
+
+/-- the client answers "a" and "b", exits with status 0, the check before the second batch finds it gone -/
+example : (assignment demoMarks demoWorld).map (fun c => (c.name, c.kind, c.mark, c.feedback)) =
+    [("a", .pass, .unmarked, false), ("b", .assertFail, .failing, false), ("c", .missing, .unmarked, false)] := by decide
+
+
+/-- `run_report_spec` / `run_success_iff_interface` / `run_success_iff_answers` / `run_success_iff` /
+`early_stop_fails` on concrete runs (hypotheses checked above): a client that serves everything and
+exits 0 on the closing of its stdin, and one that exits 0 after exactly all three answers: success;
+exits with status 0 after two answers — noticed or not by the check before the second batch, later
+sends refused or accepted and failed —, after one answer inside the first batch, before any
+request: failure; serves everything but exits with status 3: failure -/
+example : Run demoMarks (compile [demoClient none .exit 0 false false]) = true ∧
+    Run demoMarks (compile [demoClient (some 3) .exit 0 false false]) = true ∧
+    Run demoMarks (compile [demoClient (some 2) .exit 0 false false]) = false ∧
+    Run demoMarks (compile [demoClient (some 2) .exit 0 true false]) = false ∧
+    Run demoMarks (compile [demoClient (some 2) .exit 0 false true]) = false ∧
+    Run demoMarks (compile [demoClient (some 1) .exit 0 true true]) = false ∧
+    Run demoMarks (compile [demoClient (some 0) .exit 0 false true]) = false ∧
+    Run demoMarks (compile [demoClient none .exit 3 false true]) = false ∧
+    Run demoMarks (compile [demoClient none .silent 0 false true]) = false := by decide
+
+example : (runReport demoMarks demoWorld).map (fun r => [r.succeeded, r.failed, r.expectedFailures, r.couldNotRun]) = some [1, 0, 1, 1] ∧
+    (runReport demoMarks demoWorld).map (fun r => (r.ok, r.failedNames, r.infoNames)) = some (false, [], ["b"]) := by decide
+
+/-- hypotheses of `report_of_perm`, `classAt_real`, `ran_meets` (first batch of `demoWorld`: "a"
+answered as expected, "b" answered with a deviating response and known to fail) -/
+example : (merged demoMarks (finalMap [⟨"a", .pass, .unmarked, false⟩]) []).Perm (finalMap [⟨"a", .pass, .unmarked, false⟩]) :=
+  List.Perm.refl _
+
+example : (allScripts demoWorld).map (fun s => (classAt s 0, realAnswer s 0, classAt s 1, realAnswer s 1, answeredOK demoMarks s 1)) =
+    [(some .pass, some .pass, some .fail, some .mismatch, true), (some .noresult, none, none, none, false)] := by decide
+
+/-- hypothesis of `interleaving_irrelevant`: a genuine reordering of the two `setOutcome` calls of the
+spawned batch of `demoWorld` -/
+example : ((sched demoWorld).1.flatMap writesOf).reverse.Perm ((sched demoWorld).1.flatMap writesOf) ∧
+    ((sched demoWorld).1.flatMap writesOf).reverse = [("b", .fail), ("a", .pass)] :=
+  ⟨List.reverse_perm _, by decide⟩
+
+/-- hypotheses of `early_stop_fails` -/
+example : (demoClient (some 2) .exit 0 true true).fate.answers = some 2 ∧
+    2 < ((demoClient (some 2) .exit 0 true true).batches.map (fun b => b.cases.length)).sum := by decide
+
+/-- **The defect the two repairs removed (F03 + F04).**  With the verdict expression of the
+unrepaired `report` (`failed == 0`) and a liveness check that never notices a clean exit (the
+unrepaired exit hook), a client that exits with status 0 before any request was sent made `Run`
+return success although no case ran; the repaired `report` alone already makes it a failure. -/
+theorem early_exit_unrepaired_witness :
+    RunWith (fun failed _ => failed == 0) demoMarks (compile [demoClient (some 0) .exit 0 false false]) = true ∧
+    Run demoMarks (compile [demoClient (some 0) .exit 0 false false]) = false ∧
+    specOk (assignment demoMarks (compile [demoClient (some 0) .exit 0 false false])) 0 = false := by
+  decide
+
+/-! ### the assumed link to C10, as far as it can be stated about the C10 transition system -/
+
+/-- what a batch observes of the client runner for request i once the runner has come to rest -/
+inductive Seen
+  | notSent    -- `sendRequest` was never called for it
+  | refused    -- `sendRequest` returned an error: no callback
+  | answered   -- accepted; the callback got the client's response to this very request
+  | failed     -- accepted; the callback got an error
+  deriving DecidableEq, Repr
+
+/-- `none`: anything else (two callbacks, a foreign response, a callback after a refusal, …) -/
+def seen (names : Nat → Name) (s : State) (i : Nat) : Option Seen :=
+  match retOf (s.spc i), cbsOf s i with
+  | none, [] => some .notSent
+  | some (.err _), [] => some .refused
+  | some .dup, [] => some .refused
+  | some .ok, [some m] => if m = names i then some .answered else none
+  | some .ok, [none] => some .failed
+  | _, _ => none
+
+theorem client_interface_sound (names : Nat → Name) (evs : List Event)
+    (ht : Terminal (run names init evs)) (i : Nat) :
+    ∃ o, seen names (run names init evs) i = some o ∧
+      (o = .answered ↔ ((run names init evs).spc i = .ret .ok ∧ i ∈ (run names init evs).matched)) := by
+  have h1 := ConfModel.Props.C10.exactly_once names evs i ht
+  have h2 := ConfModel.Props.C10.answered_iff_own names evs i ht
+  generalize run names init evs = s at *
+  unfold seen
+  cases hp : s.spc i with
+  | ret r =>
+    cases r with
+    | ok =>
+      have h2' := h2 hp
+      simp only [retOf]
+      by_cases hm : i ∈ s.matched
+      · rw [h2', if_pos hm]; exact ⟨.answered, by simp, by simp [hm]⟩
+      · rw [h2', if_neg hm]; exact ⟨.failed, by simp, by simp [hm]⟩
+    | dup =>
+      simp only [hp, retOf, reqOK, List.isEmpty_iff] at h1
+      simp only [retOf, h1]
+      exact ⟨.refused, rfl, by simp⟩
+    | err e =>
+      simp only [hp, retOf, reqOK, List.isEmpty_iff] at h1
+      simp only [retOf, h1]
+      exact ⟨.refused, rfl, by simp⟩
+  | idle =>
+    simp only [hp, retOf, reqOK, List.isEmpty_iff] at h1
+    simp only [retOf, h1]
+    exact ⟨.notSent, rfl, by simp⟩
+  | waitLock =>
+    simp only [hp, retOf, reqOK, List.isEmpty_iff] at h1
+    simp only [retOf, h1]
+    exact ⟨.notSent, rfl, by simp⟩
+  | locked =>
+    simp only [hp, retOf, reqOK, List.isEmpty_iff] at h1
+    simp only [retOf, h1]
+    exact ⟨.notSent, rfl, by simp⟩
+  | writing =>
+    simp only [hp, retOf, reqOK, List.isEmpty_iff] at h1
+    simp only [retOf, h1]
+    exact ⟨.notSent, rfl, by simp⟩
+  | failed =>
+    simp only [hp, retOf, reqOK, List.isEmpty_iff] at h1
+    simp only [retOf, h1]
+    exact ⟨.notSent, rfl, by simp⟩
+
+
+/-- a terminal schedule: request 0 answered, request 1 accepted but never answered, request 2
+sent after the reader shut down -/
+def demoSchedule : List Event :=
+  [.sStart 0, .sLock 0, .sRegister 0, .sWriteOk 0, .sStart 1, .sLock 1, .sRegister 1, .sWriteOk 1,
+   .rRecv 10, .rLookup, .rFire, .pExit 0, .rRecvEOF, .rCloseSend, .rDrain, .rDone, .sStart 2, .sLock 2]
+
+example : let s := run (fun i => 10 + i) init demoSchedule
+    seen (fun i => 10 + i) s 0 = some .answered ∧ seen (fun i => 10 + i) s 1 = some .failed ∧
+    seen (fun i => 10 + i) s 2 = some .refused ∧ seen (fun i => 10 + i) s 3 = some .notSent ∧ s.rpc = .done := by
   decide
 
 end ConfModel.Props.C04
